@@ -17,7 +17,7 @@ def sha256 (env : Prog.Env) (b : Bytes) : Bytes :=
 
 /-- the client-data origin's host is the RP host or a subdomain of it (both hosts as the URL parser reports them) -/
 def OriginOK (env : Prog.Env) (clientOrigin rpOrigin : Bytes) : Prop :=
-  ∃ ch rh, env.answer (.urlHost clientOrigin) = .bytes ch ∧ env.answer (.urlHost rpOrigin) = .bytes rh ∧
+  ∃ ch rh, Url.hostOf clientOrigin = some ch ∧ Url.hostOf rpOrigin = some rh ∧
     rh ≠ [] ∧ (ch = rh ∨ ∃ p : Bytes, ch = p ++ dot :: rh)
 
 /-- the signature verifies under the COSE key `pk` over `msg`, by the standard primitive of the key's algorithm -/
